@@ -16,7 +16,7 @@ TRACE_RE = re.compile(r"^\[([^\]]*)\] \[([^\]]*)\] e->(.*)\(\) (.*)->(.*)$")
 
 KINDS = ("post_fifo", "post_fifo", "post_lifo", "next_rtc", "next_rtc", "next_rtc",
          "complete_circuit", "defer", "recall", "query")
-ACTION_KINDS = ("post_fifo", "post_lifo", "defer", "defer_e", "recall", "scribble", "scribble",
+ACTION_KINDS = ("post_fifo", "post_lifo", "defer", "defer", "defer_e", "recall", "recall", "scribble",
                 "is_in", "is_in", "current_state", "current_state")      # the last two: handlers that query the chart
 
 
